@@ -224,7 +224,8 @@ def n_multisets(k, n):
 
 # ------------------------------------------------------------------------------ group = one (noise, X)
 
-def run_group(ctx, noise, idx, all_targets, means_used, joint_idx, replay_base, thin_other_means=False):
+def run_group(ctx, noise, idx, all_targets, means_used, joint_idx, replay_base, thin_other_means=False,
+              count_keys=True):
     """All states for one training multiset: every (mean, target vector) as a single-column state, two fantasy
     states (m=2, m=3).  The first state gets the full battery (three test sets, variance bounds, NLML, joint
     covariance, textbook cross-check, GaussianProcessRegression path)."""
@@ -242,7 +243,7 @@ def run_group(ctx, noise, idx, all_targets, means_used, joint_idx, replay_base, 
     except Exception as e:  # noqa: BLE001  (reference failed: harness problem, not a finding)
         raise RuntimeError(f"reference failed for {rp}: {type(e).__name__}: {e}")
     ctx.cov.add("states")
-    nontrivial = n >= 2
+    nontrivial = n >= 2 and count_keys
     if rc.singular:
         ctx.cov.outcome("excluded_numerically_singular")
         ctx.cov.add("excluded_numerically_singular_groups")
@@ -339,7 +340,7 @@ def run_group(ctx, noise, idx, all_targets, means_used, joint_idx, replay_base, 
 def op_alphabet(ctx, xs, m, tier):
     """Operations applicable to a state with m columns."""
     ops = []
-    ny = 2 if tier == "quick" else 3
+    ny = 2
     for x in xs:
         for s in range(ny):
             ops.append(("U", x, [TARGET_VALS[(s + j) % 3] for j in range(m)]))
@@ -367,7 +368,8 @@ def check_node(ctx, nd, k, test_idx, rp):
     pat = f"{ctx.fam}:seq={nd.seq}:{ck.dup_pattern(ctx.d, nd.idx)}:{'m=1' if nd.m == 1 else 'm>1'}"
     nd.rc = _node_ref(ctx, nd, k)
     ctx.cov.add("transitions")
-    if len(nd.idx) >= 2:
+    if len(nd.idx) >= 2 and ("S" in nd.seq or "E" in nd.seq):
+        # data sets containing sampled targets / expanded fantasy columns do not occur in the from-scratch blocks
         ctx.keys.add(("Q", float(nd.diag[0]), k, tuple(nd.idx), tuple(np.round(nd.Y, 12).ravel())))
     if nd.rc.singular:
         ctx.cov.outcome("excluded_numerically_singular")
@@ -572,18 +574,24 @@ def make_tasks(tier):
                                           chunk_size=size, w=min(total, size) / 100.0))
         # block Q: operation sequences
         if tier == "quick":
-            plan = [(0, NOISE[0]), (0, NOISE[2]), (4, NOISE[0]), (4, NOISE[2]), (3, NOISE[1])]
-        else:
+            plan = {1: [(0, NOISE[0]), (0, NOISE[2]), (4, NOISE[0]), (4, NOISE[2]), (3, NOISE[1])],
+                    2: [(0, NOISE[0]), (4, NOISE[2]), (3, NOISE[1])],
+                    3: [(4, NOISE[0]), (0, NOISE[2])]}[d]
+        elif d == 1:
             plan = [(i, noise) for i in (0, 1, 2, 3, 4) for noise in NOISE]
+        else:
+            plan = [(0, NOISE[0]), (0, NOISE[2]), (1, NOISE[1]), (2, NOISE[0]), (3, NOISE[1]), (3, NOISE[0]),
+                    (4, NOISE[0]), (4, NOISE[2])]
         s3 = sub_alphabet(d, 3)
-        inits = [(s3[0],), (s3[0], s3[0]), (s3[0], s3[2])] if tier == "quick" else \
-            [tuple(c) for n0 in (1, 2) for c in multisets(s3, n0)]
+        inits3 = [(s3[0],), (s3[0], s3[0]), (s3[0], s3[2])]
+        inits = inits3 if (tier == "quick" or d > 1) else [tuple(c) for n0 in (1, 2) for c in multisets(s3, n0)]
         for i, noise in plan:
-            if True:
-                for idx0 in inits:
-                    for m0 in (1, 3):
-                        tasks.append(dict(block="Q", d=d, spec=i, tier=tier, noises=[noise], idx0=list(idx0), m0=m0,
-                                          w=20.0 if tier != "quick" else 8.0))
+            for idx0 in inits:
+                for m0 in (1, 3):
+                    if m0 == 3 and tuple(idx0) not in inits3:
+                        continue
+                    tasks.append(dict(block="Q", d=d, spec=i, tier=tier, noises=[noise], idx0=list(idx0), m0=m0,
+                                      w=20.0 if tier != "quick" else 8.0))
     tasks.sort(key=lambda t: -t["w"])
     return tasks
 
@@ -619,8 +627,12 @@ def task(t):
         mu = [0] if single else list(range(len(means)))
         it = multisets(alpha, n)
         lo = t["chunk"] * t["chunk_size"]
+        # every block-D kernel is also a block-P kernel: multisets inside P's sub-alphabet for this n are the same
+        # (config, data) cases again and are not counted a second time in distinct_nontrivial
+        p_alpha = {pn: set(pa) for pn, pa, _, _ in data_plan("P", d, tier)}.get(n, set())
         for idx in itertools.islice(it, lo, lo + t["chunk_size"]):
-            run_group(ctx, t["noises"][0], idx, allt, mu, joint_idx, base, tier == "quick")
+            run_group(ctx, t["noises"][0], idx, allt, mu, joint_idx, base, tier == "quick",
+                      count_keys=not set(idx) <= p_alpha)
     else:
         xs, depth, test_idx = q_params(d, tier)
         run_tree(ctx, t["noises"][0], 0, tuple(t["idx0"]), t["m0"], xs, depth, tier, test_idx, base)
@@ -648,12 +660,14 @@ RULE = (
     "n<=3 for d=2,3; n=5 over 10-point sub-alphabets for d=2,3). "
     "Block Q: all operation sequences of length <=3 over {update(x,y), sample_and_update(x) with the normal draw stubbed to "
     "0,+1,-1 (and a mixed draw with mean_impute_mask), expand_fantasies(2|3)} from initial states with n0 in {1,2}, "
-    "m0 in {1,3}; x from 3 (quick: 2) alphabet points that duplicate / nearly duplicate / differ from the initial rows. "
+    "m0 in {1,3}; x from 3 (quick: 2) alphabet points that duplicate / nearly duplicate / differ from the initial rows, "
+    "y from 2 cyclic target patterns. "
     "Oracle: independent dense reference (explicit Matern-5/2 by pairwise differences, K+sigma^2 I, numpy solve/slogdet; "
     "mpmath at 50 digits when cond > 1e5) with a-priori componentwise first-order rounding bounds (conditioning-scaled "
     "through A^-1); numerically singular cases (rho = || |A^-1| E || > 0.25) are counted and excluded. "
     "distinct_nontrivial = number of distinct (kernel config, noise, mean, training multiset, target matrix) cases with "
-    "n >= 2 (measured as a set of keys per task; tasks have disjoint configurations or disjoint multiset chunks)."
+    "n >= 2 (measured as a set of keys per task; tasks have disjoint configurations or disjoint multiset chunks; block-D "
+    "groups that repeat a block-P case and update-only sequences are not counted)."
 )
 
 
